@@ -46,6 +46,8 @@ type callD struct {
 	Via     string `json:"via"` // client | host | lb   (candidates only: pipe = PipelineClient built from hcs[HC]; flip = toggle hcs[HC].IsTLS)
 	API     string `json:"api"` // do | timeout | deadline | redirects | get | gettimeout | getdeadline | post
 	TLSFail int    `json:"tlsfail,omitempty"` // the servers abort the next TLSFail TLS handshakes (observation-only history)
+	Resend  bool   `json:"resend,omitempty"`  // send the previous call's Request object again exactly as it is (no URL set again): user-level
+	//                                           retry / fan-out; the caller's intent (scheme, host) is the one recorded when the URL was last set
 	HC     int    `json:"hc,omitempty"`
 	MaxRed int    `json:"maxred,omitempty"`
 	Hops   []hopD `json:"hops"`
@@ -488,6 +490,10 @@ func runHist(d desc) (coqCalls []string, res histResult) {
 		sharedReq, sharedResp = fasthttp.AcquireRequest(), fasthttp.AcquireResponse()
 	}
 	res.hcs = d.HCs
+	var prevReq *fasthttp.Request
+	var prevResp *fasthttp.Response
+	var prevHop hopD
+	prevFirst, prevPlain := 0, false
 
 	rid := 0
 	type reqInfo struct {
@@ -523,30 +529,58 @@ func runHist(d desc) (coqCalls []string, res histResult) {
 		if c.Via == "lb" || c.Via == "pipe" || !followsRedirects(c.API) {
 			hops = hops[:1]
 		}
-		// assign request ids and install the server scripts
 		first := rid
-		for i := range hops {
-			sc := &hopScript{replies: hops[i].Replies}
-			nw.mu.Lock()
-			nw.scripts[rid+i] = sc
-			nw.mu.Unlock()
-		}
-		for i := range hops {
-			if i+1 < len(hops) {
-				nw.scripts[first+i].location = urlOf(hops[i+1], first+i+1, &hops[i])
+		resend := false
+		if c.Resend {
+			// only after a call that left the object's URL alone, and only through an API that sends the object itself
+			if prevReq == nil || !prevPlain || followsRedirects(c.API) || c.Via == "pipe" {
+				continue
 			}
-			all = append(all, reqInfo{first + i, hops[i], c.Via})
+			resend = true
+			hops = []hopD{prevHop}
+			first = prevFirst
+			// what the server script still holds for this request id (earlier sends consumed one reply per attempt that reached a server)
+			hops[0].Replies = nil
+			nw.mu.Lock()
+			if sc := nw.scripts[first]; sc != nil && sc.attempts < len(sc.replies) {
+				hops[0].Replies = append([]string(nil), sc.replies[sc.attempts:]...)
+			}
+			nw.mu.Unlock()
+			all = append(all, reqInfo{first, hops[0], c.Via})
+		} else {
+			// assign request ids and install the server scripts
+			for i := range hops {
+				sc := &hopScript{replies: hops[i].Replies}
+				nw.mu.Lock()
+				nw.scripts[rid+i] = sc
+				nw.mu.Unlock()
+			}
+			for i := range hops {
+				if i+1 < len(hops) {
+					nw.scripts[first+i].location = urlOf(hops[i+1], first+i+1, &hops[i])
+				}
+				all = append(all, reqInfo{first + i, hops[i], c.Via})
+			}
+			rid += len(hops)
 		}
-		rid += len(hops)
 
 		req, resp := sharedReq, sharedResp
-		if !d.Reuse {
+		if resend {
+			req, resp = prevReq, prevResp
+		} else if !d.Reuse {
+			if prevReq != nil {
+				fasthttp.ReleaseRequest(prevReq)
+				fasthttp.ReleaseResponse(prevResp)
+				prevReq, prevResp = nil, nil
+			}
 			req, resp = fasthttp.AcquireRequest(), fasthttp.AcquireResponse()
 		}
 		h0 := hops[0]
 		path := "/r" + strconv.Itoa(first) + "_"
 		other := map[string]string{"http": "https", "https": "http"}[h0.Scheme]
 		switch {
+		case resend:
+			// nothing: the object goes out again as the previous send left it
 		case h0.Form == "hosthdr" && h0.Scheme == "http":
 			req.Header.SetHost(h0.Host)
 			req.SetRequestURI(path)
@@ -625,10 +659,9 @@ func runHist(d desc) (coqCalls []string, res histResult) {
 			res.obsOnly = true
 			res.key = "cand-pipelineclient-ignores-scheme"
 		}
-		if !d.Reuse {
-			fasthttp.ReleaseRequest(req)
-			fasthttp.ReleaseResponse(resp)
-		}
+		// keep the object for a possible resend; it is released when the next fresh call replaces it
+		prevReq, prevResp, prevHop, prevFirst = req, resp, h0, first
+		prevPlain = resend || (!followsRedirects(c.API) && c.Via != "pipe")
 		cls := errClass(err)
 		res.outs = append(res.outs, hlib.N(uint64(cls)))
 
@@ -660,7 +693,7 @@ func runHist(d desc) (coqCalls []string, res histResult) {
 			}
 			coqCalls = append(coqCalls, hlib.App("CLB", hlib.Nat(pick), hs[0]))
 		}
-		sigParts = append(sigParts, fmt.Sprintf("%s/%s/%d/%d", c.Via, h0.Scheme, len(hops), cls))
+		sigParts = append(sigParts, fmt.Sprintf("%s/%s/%d/%d/%v", c.Via, h0.Scheme, len(hops), cls, resend))
 	}
 
 	// tear down: closing the client ends of all pipes ends the server goroutines
@@ -812,6 +845,20 @@ func gen(r *rand.Rand, i int) desc {
 	nc := 1 + r.Intn(6)
 	for j := 0; j < nc; j++ {
 		d.Calls = append(d.Calls, genCall(r, nHC, len(d.LB) > 0))
+		for r.Intn(4) == 0 { // the same Request object sent again (retry loop, fan-out to another client)
+			rs := callD{Via: "client", API: hlib.Pick(r, []string{"do", "timeout", "deadline"}), Resend: true, Hops: []hopD{{Scheme: "http", Host: "a.test"}}}
+			switch r.Intn(4) {
+			case 0:
+				if nHC > 0 {
+					rs.Via, rs.HC = "host", r.Intn(nHC)
+				}
+			case 1:
+				if len(d.LB) > 0 {
+					rs.Via = "lb"
+				}
+			}
+			d.Calls = append(d.Calls, rs)
+		}
 	}
 	d.Reuse = r.Intn(3) == 0
 	switch r.Intn(20) {
@@ -957,6 +1004,22 @@ func corpus() []desc {
 		hc(0, "do", 0, hop("https", "a.test")), hc(1, "do", 0, hop("https", "a.test")), hc(1, "do", 0, hop("http", "a.test")))
 	reuse.Reuse = true
 	both(reuse)
+	// the same Request object sent again and again without setting its URL again (user-level retry loop, fan-out to several
+	// clients): every send of an https object must be on TLS, whoever carries it
+	rs := func(via string, hcI int, api string) callD {
+		return callD{Via: via, HC: hcI, API: api, Resend: true, Hops: []hopD{{Scheme: "http", Host: "a.test"}}}
+	}
+	both(one(cl("do", 0, hop("https", "a.test")), rs("client", 0, "do"), rs("client", 0, "timeout"), rs("client", 0, "deadline"),
+		cl("do", 0, hop("http", "a.test")), rs("client", 0, "do"), cl("do", 0, hop("https", "a.test", "close")), rs("client", 0, "do"), rs("client", 0, "do")))
+	both(one(hc(1, "do", 0, hop("https", "a.test")), rs("host", 1, "do"), rs("host", 0, "do"), rs("lb", 0, "do"), rs("lb", 0, "do"), rs("client", 0, "do"),
+		cl("timeout", 0, hop("https", "a.test:443")), rs("host", 0, "do"), rs("host", 1, "deadline"), rs("lb", 0, "do")))
+	both(one(callD{Via: "lb", API: "do", Hops: []hopD{hop("https", "a.test")}}, rs("lb", 0, "do"), rs("lb", 0, "do"), rs("lb", 0, "do"),
+		cl("do", 0, fh("https", "b.test", "setscheme")), rs("client", 0, "do"), cl("do", 0, fh("https", "b.test", "seturi")), rs("client", 0, "do"),
+		cl("do", 0, hop("https", "a.test", "fail", "keep")), rs("client", 0, "do")))
+	reuse2 := one(cl("do", 0, hop("https", "a.test")), rs("client", 0, "do"), cl("do", 0, hop("http", "a.test")), rs("client", 0, "do"),
+		cl("do", 0, hop("https", "b.test")), rs("client", 0, "do"), rs("host", 0, "do"), rs("host", 1, "do"))
+	reuse2.Reuse = true
+	both(reuse2)
 	// the remaining URL-based entry points
 	both(one(cl("gettimeout", 0, hop("http", "a.test"), hop("https", "a.test")), cl("getdeadline", 0, hop("https", "a.test"), hop("http", "a.test")),
 		cl("post", 0, hop("http", "b.test"), hop("https", "b.test")), hc(0, "gettimeout", 0, hop("http", "a.test"), hop("https", "a.test")),
